@@ -70,15 +70,6 @@ _SHAPES = {
         self.simulation_parameters.append(self.model.get_parameter_values())
     case _ as e:
         self._errors.append(e)""",
-    ("Simulator", "update_variables"): """sim_variables = self.variables
-if sim_variables is None:
-    self.y0 = self.y0 | variables
-    self._initialise_integrator()
-    return self
-self.y0 = sim_variables[-1].iloc[-1, :].to_dict() | variables
-self._time_shift = float(sim_variables[-1].index[-1])
-self._initialise_integrator()
-return self""",
     ("Simulator", "update_variable"): "return self.update_variables({variable: value})",
     ("Simulator", "clear_results"): """self.variables = None
 self.dependent = None
@@ -111,6 +102,29 @@ if res.success:
     self.y0 = y[-1]
     return Result(TimeCourse(time=t, values=y))
 return Result(IntegrationFailure())""",
+}
+
+_UPDVAR_HEAD = """sim_variables = self.variables
+if sim_variables is None:
+    self.y0 = self.y0 | variables
+    self._initialise_integrator()
+    return self
+"""
+_UPDVAR_SHAPES = {
+    # every override restarts from the last simulated row (an earlier override at the same time is lost)
+    "false": _UPDVAR_HEAD + """self.y0 = sim_variables[-1].iloc[-1, :].to_dict() | variables
+self._time_shift = float(sim_variables[-1].index[-1])
+self._initialise_integrator()
+return self""",
+    # an override made since the last simulation is kept
+    "true": _UPDVAR_HEAD + """t_last = float(sim_variables[-1].index[-1])
+if self._time_shift == t_last:
+    self.y0 = self.y0 | variables
+else:
+    self.y0 = sim_variables[-1].iloc[-1, :].to_dict() | variables
+self._time_shift = t_last
+self._initialise_integrator()
+return self""",
 }
 
 _PRIOR = "0.0 if (variables := self.variables) is None else variables[-1].index[-1]"
@@ -197,7 +211,8 @@ def extract_facts() -> dict[str, str]:
         "sim_frame": "FrameUnknown", "sim_cmp": "CmpUnknown", "tc_frame": "FrameUnknown", "tc_cmp": "CmpUnknown",
         "tc_keep": "CmpUnknown", "skip_sim": "false", "skip_tc": "false", "skip_ss": "true",
         "ss_resets": "false", "ss_advances": "true", "ss_step": "0", "ss_max": "0",
-        "ptc_cmp": "CmpUnknown", "win_lo": "CmpUnknown", "win_hi": "CmpUnknown", "shapes_ok": "false",
+        "ptc_cmp": "CmpUnknown", "win_lo": "CmpUnknown", "win_hi": "CmpUnknown", "updvar_keeps": "false",
+        "shapes_ok": "false",
     }  # fail-closed defaults: none of them equals the pinned value
     try:
         sim_tree = ast.parse((common.REPO / "src/mxlpy/simulator.py").read_text())
@@ -206,6 +221,14 @@ def extract_facts() -> dict[str, str]:
         return facts
     trees = {"Simulator": sim_tree, "Scipy": int_tree}
     shapes_ok = all(_norm(_method(trees[c], c, m)) == shape for (c, m), shape in _SHAPES.items())
+
+    uv = _norm(_method(sim_tree, "Simulator", "update_variables"))
+    for flag, shape in _UPDVAR_SHAPES.items():
+        if uv == shape:
+            facts["updvar_keeps"] = flag
+            break
+    else:
+        shapes_ok = False
 
     # simulate
     fr, cmp_, rest = _frame_facts(_method(sim_tree, "Simulator", "simulate"), "t_end", "t_end")
@@ -344,7 +367,7 @@ return self"""
 
 FACT_ORDER = [
     "sim_frame", "sim_cmp", "tc_frame", "tc_cmp", "tc_keep", "skip_sim", "skip_tc", "skip_ss",
-    "ss_resets", "ss_advances", "ss_step", "ss_max", "ptc_cmp", "win_lo", "win_hi", "shapes_ok",
+    "ss_resets", "ss_advances", "ss_step", "ss_max", "ptc_cmp", "win_lo", "win_hi", "updvar_keeps", "shapes_ok",
 ]
 
 
@@ -666,6 +689,7 @@ class Spec:
         self.reached = F(0)
         self.nseg = 0  # number of segments expected so far; 0 = no results
         self.failed = False
+        self.pending: dict[str, Fraction] = {}  # overrides applied since the last accepted integration
         self.tags: set[str] = set()  # what happened so far (for attributing known findings)
 
 
@@ -685,6 +709,7 @@ def oracle_history(mode: str, y0: list, p0: list, ops: list, obs: list[dict]) ->
     def resync(o: dict) -> None:
         """continue judging from what the implementation reports (errors do not accumulate)"""
         nonlocal prev_segs, prev_pars
+        prev_n = sum(len(s) for s in prev_segs) if prev_segs else 0
         prev_segs, prev_pars = o["segs"], o["pars"]
         if o["segs"]:
             sp.nseg = len(o["segs"])
@@ -693,6 +718,10 @@ def oracle_history(mode: str, y0: list, p0: list, ops: list, obs: list[dict]) ->
                 last = nonempty[-1][-1]
                 sp.reached = fr(last[0])
                 sp.cur = [fr(v) if mode == "exact" else float(v) for v in last[1:]]
+                if prev_n != sum(len(s) for s in o["segs"]):
+                    sp.pending = {}  # rows were appended: the override has been consumed
+                sp.cur = [(sp.pending[v] if mode == "exact" else float(sp.pending[v])) if v in sp.pending else sp.cur[j]
+                          for j, v in enumerate(VARS)]
         else:
             sp.nseg = 0
 
@@ -787,25 +816,23 @@ def oracle_history(mode: str, y0: list, p0: list, ops: list, obs: list[dict]) ->
             if o["out"] != "done":
                 flag(i, "update_variable(s) raised " + o["out"])
             expect_unchanged(i, o, "update_variable(s)")
-            resync(o)
             if sp.nseg == 0:
                 sp.y_init = [fr(op[1][v]) if v in op[1] else sp.y_init[j] for j, v in enumerate(VARS)]
                 sp.cur = list(sp.y_init)
             else:
-                sp.cur = [(fr(op[1][v]) if mode == "exact" else float(fr(op[1][v]))) if v in op[1] else sp.cur[j] for j, v in enumerate(VARS)]
+                sp.pending.update({k: fr(v) for k, v in op[1].items()})
                 sp.tags.add("override-after-simulation")
+                resync(o)
+                # the simulator's start state (what clear_results restarts from) is now the overridden state
+                sp.y_init = [fr(v) if mode == "exact" else v for v in sp.cur]
             continue
         if kind == "clear":
             if o["out"] != "done" or o["segs"] is not None or o["pars"] is not None:
                 flag(i, "clear_results left results behind")
-            # restart from the simulator's y0: the initial state incl. every override applied so far
-            keep = list(sp.cur) if sp.nseg and "override-after-simulation" in sp.tags else None
-            sp_failed_tags = {t for t in sp.tags if t == "nonautonomous"}
-            sp.reached, sp.nseg, sp.failed = F(0), 0, False
-            sp.tags = sp_failed_tags
-            sp.clear_state = keep  # type: ignore[attr-defined]
+            # restart from the simulator's start state: the initial conditions with every override made so far
+            sp.reached, sp.nseg, sp.failed, sp.pending, sp.tags = F(0), 0, False, {}, set()
             prev_segs, prev_pars = None, None
-            sp.cur = None  # type: ignore[assignment]  # learnt from the first row of the next segment
+            sp.cur = list(sp.y_init)
             continue
         # ---- simulating operations
         if sp.failed:
@@ -817,48 +844,30 @@ def oracle_history(mode: str, y0: list, p0: list, ops: list, obs: list[dict]) ->
             if {k: fr(v) for k, v in o["model_pars"].items()} != sp.pars:
                 flag(i, "model parameters changed by an operation that was skipped")
             continue
-        if sp.cur is None:
-            # after clear_results: the start state is whatever the simulator restarts from; it must be a state
-            # the user put there -- accept the first reported row as the start state (its time must be 0)
-            if o["segs"]:
-                first = o["segs"][0][0]
-                sp.cur = [fr(v) if mode == "exact" else float(v) for v in first[1:]]
-                if kind != "steady" and fr(first[0]) != 0:
-                    flag(i, f"after clear_results the time axis restarts at {first[0]}, not 0")
-            else:
-                sp.cur = list(sp.y_init)
         if sp.pars.get("a", 0) != 0:
             sp.tags.add("nonautonomous")
-        if sp.pars.get("boom", 0) != 0:
-            # the solver reports failure: the call must return, record the failure, and add nothing
-            exp_refuse = (kind == "sim" and fr(op[1]) <= sp.reached) or (kind == "tc" and op[1] and fr(op[1][-1]) <= sp.reached)
-            if kind in ("sim", "tc") and exp_refuse:
+        if sp.pars.get("boom", 0) != 0 and kind != "steady":
+            # the solver reports failure: a legal continuation returns, records the failure and adds nothing
+            if kind in ("prot", "ptc"):
+                if o["err"] != "none":
+                    sp.failed = True
+                sp.pars = {k: fr(v) for k, v in o["model_pars"].items()}  # rows applied before the failure
+                if o["segs"] != prev_segs:
+                    flag(i, "failed protocol step added rows")
+                continue
+            refused = (kind == "sim" and fr(op[1]) <= sp.reached) or (kind == "tc" and fr(op[1][-1]) <= sp.reached)
+            if refused:
                 if o["out"] != "ValueError":
                     flag(i, f"{kind} to an end not later than {sp.reached} was not refused")
                 expect_unchanged(i, o, "refused continuation")
                 continue
-            if kind in ("prot", "ptc"):
-                sp.tags.add("failure-inside-protocol")
-                # judged only through the correspondence with the model; resync
-                if o["err"] != "none":
-                    sp.failed = True
-                # the protocol applied (some of) its parameter rows before failing
-                sp.pars = {k: fr(v) for k, v in o["model_pars"].items()}
-                resync(o)
-                continue
-            if kind == "steady":
-                sp.tags.add("steady")
-            if kind == "tc" and not _tc_legal(op[1], sp.reached):
-                resync(o)
-                continue
-            if kind == "sim" and op[2] == 0:
-                resync(o)
-                continue
-            if o["err"] == "none" and not (kind == "steady"):
-                flag(i, f"{kind}: the solver failed but no failure is reported")
+            expect_unchanged(i, o, "failed integration")
+            if (kind == "tc" and not _tc_legal(op[1], sp.reached)) or (kind == "sim" and op[2] == 0):
+                continue  # malformed request: raising is fine too
+            if o["out"] != "done" or o["err"] == "none":
+                flag(i, f"{kind}: the solver failed but the call gave {o['out']} / error {o['err']}")
             if o["err"] != "none":
                 sp.failed = True
-            expect_unchanged(i, o, "failed integration")
             continue
         if kind == "sim":
             t_end, steps = fr(op[1]), op[2]
@@ -952,7 +961,7 @@ def oracle_history(mode: str, y0: list, p0: list, ops: list, obs: list[dict]) ->
                 pieces = []
                 a = sp.reached
                 for e, p in zip(ends, par_seq):
-                    pieces.append((_linspace_new(sp.reached if False else a, e, n), p, {}))
+                    pieces.append((_linspace_new(a, e, n), p, {}))
                     a = e
                 # NB the code requests linspace(integrator time, t_start + end_i): the grid of step i starts at
                 # the previous boundary
@@ -1028,13 +1037,15 @@ def _g(n: int) -> Fraction:
     return F(n, GRID)
 
 
-def gen_steps(rng, mode: str) -> list:  # noqa: ANN001
+def gen_steps(rng, mode: str) -> list:  # noqa: ANN001, ARG001
+    """(duration, values) steps; every step names the same parameters (make_protocol builds a frame)"""
     n = rng.choice([1, 1, 2, 2, 3, 4, 5])
+    with_c = rng.random() < 0.35
     steps = []
     for _ in range(n):
         d = _g(rng.randint(1, 16))
         u = {"k": js(rng.choice([F(0), F(1, 2), F(1), F(2), F(1, 4)]))}
-        if rng.random() < 0.35:
+        if with_c:
             u["c"] = js(rng.choice([F(0), F(1, 2), F(1)]))
         steps.append([js(d), u])
     return steps
@@ -1258,3 +1269,159 @@ ASSUMPTIONS = [
     "Scipy class); in 'scipy' mode against the closed form with atol 2e-6 / rtol 2e-4 (validation only, solver runs at 1e-8)",
     "correspondence harness: literal printer, observation canonicaliser, coqc output parser",
 ]
+
+
+# ---------------------------------------------------------------------------------------
+# (7) corpus, enumeration, the common check body, replay
+# ---------------------------------------------------------------------------------------
+
+_Y0, _P0 = ["1", "1"], ["1", "1/2", "0", "0"]
+
+CORPUS_C04: list[dict] = [
+    # the time-shift witnesses of DESIGN section 9 item 4 (false refusal; silently dropped points)
+    {"mode": "exact", "y0": _Y0, "p0": _P0, "ops": [["sim", "10", 2], ["updvar", {"x": "2"}], ["sim", "15", 2]]},
+    {"mode": "exact", "y0": _Y0, "p0": _P0, "ops": [["sim", "10", 2], ["updvar", {"x": "2"}], ["tc", ["12", "14", "21", "23"]]]},
+    {"mode": "scipy", "y0": _Y0, "p0": ["1/4", "1/2"], "ops": [["sim", "4", 2], ["updvar", {"x": "2"}], ["sim", "6", 2], ["tc", ["5", "7", "9"]]]},
+    {"mode": "exact", "y0": _Y0, "p0": _P0, "ops": [["sim", "2", 2], ["updvar", {"y": "0"}], ["prot", [["1", {"k": "2"}], ["1/2", {"k": "0"}]], 2]]},
+    {"mode": "exact", "y0": _Y0, "p0": _P0, "ops": [["tc", ["1", "2"]], ["updvar", {"y": "2"}], ["ptc", [["1", {"k": "2"}], ["1", {"k": "1/2"}]], ["1/2", "1", "3/2"], True]]},
+    {"mode": "exact", "y0": _Y0, "p0": _P0, "ops": [["sim", "2", 1], ["updvar", {"x": "3"}], ["updvar", {"y": "0"}], ["sim", "3", 4], ["updvar", {"x": "1"}], ["tc", ["3", "7/2", "4"]]]},
+]
+
+WITNESS_STEADY = {"mode": "exact", "y0": ["1", "0"], "p0": ["1", "0", "0", "0"],
+                  "ops": [["sim", "500", 2], ["steady"], ["sim", "800", 2]]}
+WITNESS_NONAUT = {"mode": "exact", "y0": ["0", "0"], "p0": ["0", "0", "1", "0"],
+                  "ops": [["sim", "2", 1], ["updvar", {"x": "2"}], ["sim", "4", 1]]}
+WITNESSES = {"steady-state-resets-integrator": WITNESS_STEADY, "override-restarts-model-time": WITNESS_NONAUT}
+
+
+def enum_histories(rng) -> list[dict]:  # noqa: ANN001, ARG001
+    """every history of length <= 3 over a fixed 14-operation alphabet (exact mode)"""
+    import itertools
+
+    st = [["1", {"k": "2", "c": "1/2"}], ["1/2", {"k": "0", "c": "1"}]]
+    alphabet = [
+        ["sim", "1", 2], ["sim", "2", 1], ["sim", "3/2", 4], ["tc", ["1/2", "1"]], ["tc", ["1", "2", "3"]], ["tc", ["3/2"]],
+        ["prot", st, 2], ["ptc", st, ["1/2", "1", "5/4", "2"], True], ["ptc", st, ["1/2", "3"], False], ["steady"],
+        ["updpar", {"k": "2"}], ["updvar", {"x": "2"}], ["updvar", {"y": "0"}], ["clear"],
+    ]
+    out = []
+    for n in (1, 2, 3):
+        for ops in itertools.product(alphabet, repeat=n):
+            out.append({"mode": "exact", "y0": _Y0, "p0": _P0, "ops": [list(o) for o in ops]})
+    return out
+
+
+def nontrivial(h: dict, obs: list[dict]) -> bool:
+    ops = h["ops"]
+    if len(ops) < 2:
+        return False
+    simulating = [i for i, o in enumerate(ops) if o[0] in ("sim", "tc", "prot", "ptc", "steady")]
+    return len(simulating) >= 2 or any(o[0] in ("updvar", "clear") for o in ops[1:]) or any(o["out"] != "done" for o in obs)
+
+
+def judge(h: dict, prop: str) -> tuple[dict, list[dict]]:
+    r = run_history(h["mode"], h["y0"], h["p0"], h["ops"], want_fluxes=(prop == "C14"))
+    if r["discard"]:
+        return r, []
+    bad = oracle_history(h["mode"], h["y0"], h["p0"], h["ops"], r["obs"])
+    if prop == "C14":
+        from harness import c14
+
+        bad += c14.oracle_protocols(h, r)
+    return r, bad
+
+
+def run_all(run: common.Run, prop: str, hs: list[dict], proofs_ok: bool) -> None:
+    dist: dict[str, dict[str, int]] = {"ops": {}, "outcomes": {}, "modes": {}, "lengths": {}, "discarded": {}}
+    items: list[tuple[dict, list[dict]]] = []
+    item_src: list[int] = []
+    pending: list[tuple[int, dict, dict]] = []  # (history index, violation, history)
+    for hi, h in enumerate(hs):
+        r, bad = judge(h, prop)
+        if r["discard"]:
+            dist["discarded"][r["discard"]] = dist["discarded"].get(r["discard"], 0) + 1
+            continue
+        obs = r["obs"]
+        dist["modes"][h["mode"]] = dist["modes"].get(h["mode"], 0) + 1
+        dist["lengths"][str(len(h["ops"]))] = dist["lengths"].get(str(len(h["ops"])), 0) + 1
+        for op, o in zip(h["ops"], obs):
+            dist["ops"][op[0]] = dist["ops"].get(op[0], 0) + 1
+            key = o["out"] + ("" if o["err"] == "none" else "/" + o["err"])
+            dist["outcomes"][key] = dist["outcomes"].get(key, 0) + 1
+        run.count_case((h["mode"], h["y0"], h["p0"], h["ops"]), nontrivial=nontrivial(h, obs))
+        if hi % 97 == 0:
+            run.sample({"history": h, "outcomes": [o["out"] + "/" + o["err"] for o in obs],
+                        "index": [[r_[0] for r_ in s] for s in (obs[-1]["segs"] or [])]})
+        for v in bad:
+            pending.append((hi, v, h))
+        # not compared with the model: the inexact default grid (steps=None), and steady-state runs on the real scipy
+        # (when the real solver's norm test fires is not something the model can know) -- both judged by the oracle only
+        if any(op[0] == "sim" and op[2] is None for op in h["ops"]) or (h["mode"] == "scipy" and any(op[0] == "steady" for op in h["ops"])):
+            dist["discarded"]["oracle-only"] = dist["discarded"].get("oracle-only", 0) + 1
+        else:
+            items.append((h, obs))
+            item_src.append(hi)
+    run.coverage["input_distribution"] = dist
+
+    mism = correspondence(run, prop.lower(), items)
+    mism_h = {item_src[j] for j in mism}
+    run.coverage["traces_validated_against_impl"] = len(items) - len(mism)
+    run.coverage["correspondence_mismatches"] = len(mism)
+
+    known_ids = {f["id"] for f in common.load_known_findings(prop)}
+    attributed: dict[str, int] = {}
+    n_viol = 0
+    for hi, v, h in pending:
+        fid = classify(v, h["mode"])
+        if fid in known_ids and hi not in mism_h:
+            attributed[fid] = attributed.get(fid, 0) + 1
+            continue
+        if n_viol < 4:
+            n_viol += 1
+            small = shrink(h, prop, v)
+            run.violation(f"{prop}: op #{v['op']} of {small['ops']}: {v['what']}", {"kind": "history", "prop": prop, **small})
+    run.coverage["violations_attributed_to_known_findings"] = attributed
+
+    for f in common.load_known_findings(prop):
+        w = f.get("witness") or WITNESSES.get(f["id"])
+        if not w:
+            continue
+        _, bad = judge(w, prop)
+        if any(classify(v, w["mode"]) == f["id"] for v in bad):
+            run.known(f["id"], f["what_fails"])
+    if not proofs_ok:
+        run.note("proof obligations broken; the generated histories, the corpus and the witnesses were judged by the oracle")
+
+
+def shrink(h: dict, prop: str, v: dict) -> dict:
+    """drop operations after the offending one, then single earlier operations, while the oracle still objects"""
+    cur = dict(h, ops=h["ops"][: v["op"] + 1])
+    try:
+        changed = True
+        while changed and len(cur["ops"]) > 1:
+            changed = False
+            for i in range(len(cur["ops"]) - 1):
+                cand = dict(cur, ops=cur["ops"][:i] + cur["ops"][i + 1 :])
+                _, bad = judge(cand, prop)
+                if any(classify(b, cand["mode"]) is None and b["op"] == len(cand["ops"]) - 1 for b in bad):
+                    cur, changed = cand, True
+                    break
+    except Exception:  # noqa: BLE001
+        pass
+    return cur
+
+
+def replay(rep: dict, prop: str) -> int:
+    r = rep.get("replay", rep)
+    if r.get("kind") != "history":
+        print("nothing to replay:", rep.get("what"))
+        return 1
+    h = {k: r[k] for k in ("mode", "y0", "p0", "ops")}
+    res, bad = judge(h, r.get("prop", prop))
+    for o, op in zip(res["obs"], h["ops"]):
+        print(op, "->", o["out"], o["err"], [[x[0] for x in s] for s in (o["segs"] or [])])
+    for v in bad:
+        print("oracle:", v)
+    if not bad:
+        print("oracle: property holds on this history")
+    return 1 if bad else 0
